@@ -213,9 +213,14 @@ impl Codec {
     fn encode_item(&self, item: Encoded, dst: &mut BytePages) -> Result<(), EncodeError> {
         match item {
             Encoded::Packet(pkt) => {
-                let content_size = encode::get_encoded_size(&pkt);
-                encode::encode(&pkt, dst, content_size as u32)?;
-                Ok(())
+                if self.encoding_payload.get().is_some() {
+                    log::trace!("Expect payload, received {pkt:?}");
+                    Err(EncodeError::ExpectPayload)
+                } else {
+                    let content_size = encode::get_encoded_size(&pkt);
+                    encode::encode(&pkt, dst, content_size as u32)?;
+                    Ok(())
+                }
             }
             Encoded::Publish(pkt, buf) => {
                 let Publish { qos, packet_id, .. } = pkt;
